@@ -97,6 +97,7 @@ func stmtDescriptors(fn *ssa.Function) []string {
 type siblingMember struct {
 	vocab     map[string]bool // operations reached (see vocabOf)
 	mods      map[string]bool // caller-visible locations written (filled lazily)
+	guards    map[string]bool // "op <- guard" pairs: guard dominates every call of op (filled lazily)
 	generated bool            // defined in a file carrying the "Code generated ... DO NOT EDIT" header
 	pkg       string
 	key       string // function key inside the family (group-normalised)
@@ -194,8 +195,11 @@ func SiblingCheck(c *Ctx, p *Program, rule string, famPatterns []string, nameFil
 				if m.mods == nil {
 					m.mods = modsOf(eff, m.fn)
 				}
+				if m.guards == nil {
+					m.guards = guardedOps(m.fn, opaqueIn(fam, m.pkg))
+				}
 			}
-			decide := func(aspect string, sig func(m *siblingMember) map[string]bool, lacksOnly bool) {
+			decide := func(aspect string, sig func(m *siblingMember) map[string]bool, lacksOnly bool, relevant func(m *siblingMember, key string) bool) {
 				groups := map[string][]*siblingMember{}
 				keys := map[*siblingMember]string{}
 				for _, m := range ms {
@@ -228,7 +232,7 @@ func SiblingCheck(c *Ctx, p *Program, rule string, famPatterns []string, nameFil
 					}
 					var lacks, extra []string
 					for k := range sig(major[0]) {
-						if !sig(m)[k] {
+						if !sig(m)[k] && (relevant == nil || relevant(m, k)) {
 							lacks = append(lacks, k)
 						}
 					}
@@ -250,8 +254,15 @@ func SiblingCheck(c *Ctx, p *Program, rule string, famPatterns []string, nameFil
 					c.Ob(rule, m.pkg, m.pkg+"."+m.key, con, p.Pos(m.fn.Pos()), false, msg)
 				}
 			}
-			decide("operations", func(m *siblingMember) map[string]bool { return m.vocab }, true)
-			decide("effects", func(m *siblingMember) map[string]bool { return m.mods }, false)
+			decide("operations", func(m *siblingMember) map[string]bool { return m.vocab }, true, nil)
+			decide("effects", func(m *siblingMember) map[string]bool { return m.mods }, false, nil)
+			// a guard can only be missed on an operation the member performs
+			decide("guards", func(m *siblingMember) map[string]bool { return m.guards }, true, func(m *siblingMember, key string) bool {
+				if i := strings.Index(key, " <- "); i >= 0 {
+					return m.guards[key[:i]]
+				}
+				return false
+			})
 			// informational: exact statement multisets
 			{
 				groups := map[string][]*siblingMember{}
@@ -395,6 +406,106 @@ func callsNothing(f *ssa.Function) bool {
 	}
 	callsNothingMemo.Store(f, r)
 	return r
+}
+
+var reStmtShape = regexp.MustCompile(`^(ok|not|noerr) ([A-Za-z_][\w./]*)\(`)
+
+// guardedOps: on the inlined view of fn, for every operation of the module that fn calls (the
+// functions expanded in the view excluded), the checks that dominate EVERY call of it, as pairs
+// "op <- ok Check" / "op <- not Check" / "op <- noerr Check" (names only). A check wrapped in a
+// predicate of the package is seen through the predicate's outcome facts; a guarded call moved into
+// a helper keeps its guard because the helper is expanded at its call site.
+func guardedOps(fn *ssa.Function, opaque func(*ssa.Function) bool) map[string]bool {
+	out := map[string]bool{}
+	if fn.Blocks == nil || len(fn.Blocks) > 400 {
+		return out
+	}
+	v := NewIViewOpt(fn, opaque)
+	if v.entry == nil || len(v.nodes) > 3000 {
+		return out
+	}
+	home := fnPkgPath(fn)
+	per := map[string]map[string]bool{}
+	condMemo := map[*ivNode][]string{}
+	for _, x := range v.Instrs() {
+		ci, ok := x.in.(ssa.CallInstruction)
+		if !ok || v.Inlined(x) {
+			continue
+		}
+		cc := ci.Common()
+		if _, isB := cc.Value.(*ssa.Builtin); isB {
+			continue
+		}
+		name := ""
+		if cc.IsInvoke() {
+			name = descCallee(calleeOf(cc))
+		} else if sc := cc.StaticCallee(); sc != nil && fnPkgPath(sc) != "math/bits" {
+			// (math/bits primitives are the limb arithmetic itself: where they sit follows the carry
+			// variant of the template, not a precondition)
+			name = descCallee(calleeOf(cc))
+		}
+		if name == "" {
+			continue
+		}
+		name = normSibling(name)
+		n, _ := v.nodeOf(x)
+		if n == nil {
+			continue
+		}
+		gs, done := condMemo[n]
+		if !done {
+			set := map[string]bool{}
+			for _, cd := range v.DominatingConds(x) {
+				stmts := []string{descAtom(cd.atom, cd.edge)}
+				// a check wrapped in a predicate of this package is seen through; what a function of
+				// another package checks internally is that package's business (and varies per curve)
+				var ccall *ssa.Call
+				switch cd.atom.Kind {
+				case "call":
+					ccall = cd.atom.Call
+				case "nilcmp":
+					ccall, _ = callResult(cd.atom.X)
+				}
+				if ccall != nil && !ccall.Call.IsInvoke() {
+					if sc := ccall.Call.StaticCallee(); sc != nil && fnPkgPath(sc) == home && !opaque(sc) {
+						stmts = allEdgeStmts(cd.atom, cd.edge)
+					}
+				}
+				for _, st := range stmts {
+					if m := reStmtShape.FindStringSubmatch(st); m != nil {
+						set[m[1]+" "+normSibling(m[2])] = true
+					}
+				}
+			}
+			gs = sortedKeys(set)
+			condMemo[n] = gs
+		}
+		cur, seen := per[name]
+		if !seen {
+			cur = map[string]bool{}
+			for _, g := range gs {
+				cur[g] = true
+			}
+			per[name] = cur
+			continue
+		}
+		has := map[string]bool{}
+		for _, g := range gs {
+			has[g] = true
+		}
+		for g := range cur {
+			if !has[g] {
+				delete(cur, g)
+			}
+		}
+	}
+	for op, gs := range per {
+		out[op] = true // the operation is performed
+		for g := range gs {
+			out[op+" <- "+g] = true
+		}
+	}
+	return out
 }
 
 // modsOf: the caller-visible objects fn may write: receiver, parameters, captured variables
